@@ -156,7 +156,7 @@ def main():
     # A case the oracle attributed to a known finding, on which model and implementation ALSO disagree, is not
     # explained by that finding (the model reproduces the recorded defect): report it as a failing input.
     if tie_broken and not unlisted():
-        bad_cases = {lib.chash(d[1]) for d in ctx.disagreements if d[1] is not None}
+        bad_cases = {lib.chash(d[1]) for d in ctx.disagreements if d[1] is not None} | ctx.bad_case_hashes
         for v in ctx.violations:
             if v["footprint"] in open_ids and lib.chash(v["case"]) in bad_cases:
                 v["what"] = "(attributed to %s by its footprint, but model and implementation disagree on this case) %s" % (v["footprint"], v["what"])
